@@ -2,7 +2,6 @@
    C18 (shutdown).  Every theorem is closed under the global context (see the end). *)
 From DV Require Import Prelude.Base Model.Node.
 From Coq Require Import String.
-From Hammer Require Import Tactics.
 Open Scope string_scope.
 Open Scope list_scope.
 Open Scope Z_scope.
